@@ -38,6 +38,13 @@ type Builder struct {
 	TargetDep bool
 	// Modelled: the Lean generator replicates this builder (T4 applies).
 	Modelled bool
+	// ModelledFor restricts Modelled to some cases (nil = all).
+	ModelledFor func(c Case) bool
+}
+
+// IsModelled reports whether the Lean generator covers the case.
+func (b *Builder) IsModelled(c Case) bool {
+	return b.Modelled && (b.ModelledFor == nil || b.ModelledFor(c))
 }
 
 func maxi(a, b int) int {
@@ -259,18 +266,21 @@ func init() {
 		Heavy: true, Modelled: true,
 	})
 
-	// dividers
+	// dividers: the Lean generator models the long divider (Yao target of
+	// NewUDivider / NewIDivider; NewUDividerLong itself on both targets)
+	yaoOnly := func(c Case) bool { return c.Target == 0 }
 	b = reg(divBuilder("udiv", circuits.NewUDivider, false, 0, nzDivWide))
-	b.TargetDep = true
+	b.TargetDep, b.Modelled, b.ModelledFor = true, true, yaoOnly
 	b = reg(divBuilder("umod", circuits.NewUDivider, false, 1, nzDivWide))
-	b.TargetDep = true
+	b.TargetDep, b.Modelled, b.ModelledFor = true, true, yaoOnly
 	b = reg(divBuilder("udivmod", circuits.NewUDivider, false, 2, nzDiv))
-	b.TargetDep = true
+	b.TargetDep, b.Modelled, b.ModelledFor = true, true, yaoOnly
 	b = reg(divBuilder("idiv", circuits.NewIDivider, true, 0, nzDivWide))
-	b.TargetDep = true
+	b.TargetDep, b.Modelled, b.ModelledFor = true, true, yaoOnly
 	b = reg(divBuilder("imod", circuits.NewIDivider, true, 1, nzDivWide))
-	b.TargetDep = true
-	reg(divBuilder("udivlong", circuits.NewUDividerLong, false, 2, nzDivWide))
+	b.TargetDep, b.Modelled, b.ModelledFor = true, true, yaoOnly
+	b = reg(divBuilder("udivlong", circuits.NewUDividerLong, false, 2, nzDivWide))
+	b.Modelled = true
 	reg(divBuilder("udivrestoring", circuits.NewUDividerRestoring, false, 2, nzDiv))
 	reg(divBuilder("udivarray", circuits.NewUDividerArray, false, 2, nzDiv))
 	reg(divBuilder("udivgold", circuits.NewUDividerGoldschmidtFast, false, 2, nzDiv))
